@@ -441,12 +441,34 @@ MANY_SYS = {8: [[0, 2, 3, 4, 5, 7], [1, 2, 3, 4, 5, 6], [7, 5, 4, 3, 2, 0]],
 
 
 def many_cases(tier, seed):
+    # added after seeded change C02-9 (an argsort that is only order-preserving up to 16 elements)
+    for n in (17, 20, 24) if tier == "quick" else (17, 18, 20, 24, 33):
+        for places in ((3, 12, 13), (0, 1, n - 1), (n - 3, n - 2, n - 1), (5, n // 2, n - 2)):
+            for vals in ((2, 3, 2), (3, 2, 2)):
+                dims = [1] * n
+                for pl, v in zip(places, vals):
+                    dims[pl] = v
+                for sys_ in ([7, places[1]], [places[0]], [places[2], places[0]], [places[1], 4, 9], list(range(1, n, 2))):
+                    yield {"dims": dims, "sys": sys_}
     for n in (8, 9, 10) + ((11,) if tier == "thorough" else ()):
         for sys_ in MANY_SYS[n]:
             yield {"n": n, "sys": sys_}
 
 
 def many_check(case):
+    if "dims" in case:
+        # many subsystems, most of them one-dimensional (the total size stays 12): the bookkeeping runs over 17..24 subsystems
+        dims, sys_ = case["dims"], case["sys"]
+        N = ti.prod(dims)
+        X = lb.labelled(N, N, "complex", additive=True)
+        exp = lb.ptrace_expected(X, dims, list(sys_))
+        got, exc = run_pt(X.copy(), list(sys_), list(dims))
+        if exc is not None:
+            return viol(f"partial_trace raised on {len(dims)} subsystems: " + exc_text(exc), site=SITE + ":exception")
+        if not lb.same_cells(got, exp):
+            return viol(f"partial trace over {sys_} of {len(dims)} subsystems (dims {dims}) is not the index contraction with the kept subsystems in "
+                        "their original order", site=SITE + ":many_subsystems", observed=small(got))
+        return ok(True)
     n, sys_ = case["n"], case["sys"]
     dims = [2] * n
     N = 2 ** n
@@ -482,7 +504,7 @@ CLAUSES = [
     Clause("C02.composition", composition_cases, composition_check,
            doc="tracing S then T (re-indexed, every listing order) = tracing S u T, for all ordered disjoint splits"),
     Clause("C02.many_subsystems", many_cases, many_check, chunk=1, weight=2.0, probe=1,
-           doc="8..10 (thorough 11) qubits, non-contiguous kept subsystems: index contraction with the kept subsystems in their original order"),
+           doc="8..10 (thorough 11) qubits, non-contiguous kept subsystems, and 17..24 (33) subsystems most of which are one-dimensional: index contraction with the kept subsystems in their original order"),
 ]
 
 # every toqito call of this property is repeated with column-major copies of its array arguments (engine.call, layout twin)
